@@ -84,6 +84,11 @@ func runCmd(dir string, env []string, name string, args ...string) (string, erro
 
 // NewBuild instruments repo into a fresh scratch directory and compiles the node.
 func NewBuild(repo string, wantRace bool) (*Build, error) {
+	return NewBuildTags(repo, wantRace, "simnode")
+}
+
+// NewBuildTags is NewBuild with an explicit build-tag list for the node.
+func NewBuildTags(repo string, wantRace bool, tags string) (*Build, error) {
 	t0 := time.Now()
 	base := os.Getenv("VERIF_SCRATCH_BASE")
 	if base == "" {
@@ -153,12 +158,12 @@ func NewBuild(repo string, wantRace bool) (*Build, error) {
 		return nil, herr("instrumented copy does not build: %v\n%s", err, out)
 	}
 	b.Plain = filepath.Join(scratch, "simnode.test")
-	if out, err := runCmd(b.RepoCopy, env, goBin, "test", "-c", "-vet=off", "-tags", "simnode", "-o", b.Plain, "./zz_simnode"); err != nil {
+	if out, err := runCmd(b.RepoCopy, env, goBin, "test", "-c", "-vet=off", "-tags", tags, "-o", b.Plain, "./zz_simnode"); err != nil {
 		return nil, herr("node build failed: %v\n%s", err, out)
 	}
 	if wantRace {
 		b.Race = filepath.Join(scratch, "simnode.race.test")
-		if out, err := runCmd(b.RepoCopy, env, goBin, "test", "-c", "-race", "-vet=off", "-tags", "simnode", "-o", b.Race, "./zz_simnode"); err != nil {
+		if out, err := runCmd(b.RepoCopy, env, goBin, "test", "-c", "-race", "-vet=off", "-tags", tags, "-o", b.Race, "./zz_simnode"); err != nil {
 			return nil, herr("race node build failed: %v\n%s", err, out)
 		}
 	}
